@@ -197,6 +197,8 @@ def run_case(ctx, case):
             o = dict(opts)
             if b == 0 and dv >= 3:
                 o["want_join"] = ctx.rng.choice(L.JOIN_SHAPES)      # make sure every pair sees key joins
+            elif b == 2 and dv >= 3 and cv >= 4:
+                o["history"] = "remove_last"     # dataset removed before saving, still reachable through a key join
             elif b == 1:
                 o["want_link"] = ctx.rng.choice([k for k in L.LINK_KINDS if k not in opts.get("exclude_links", ())])
             ses = L.build_session(ctx.rng, o, None)
